@@ -229,3 +229,6 @@ def run(ch: Checker) -> None:
              'web layer matches %s, reverse proxy matches %s: the full request path on both sides' % (web_arg, sorted(rev_args)),
              'the web layer matches routes against %s but the reverse proxy against %s: a request admitted by the first can find no route in the second (no 404, no upstream, '
              'connection left hanging) or the other way round' % (web_arg, sorted(rev_args)))
+    # ---------------- C12.7 (shared)
+    ch.import_rules('C02', {'C02.2': 'C12.7'}, 'the request line the reverse-proxied origin reads is what HttpParser.build makes of the path the route chose')
+
